@@ -70,7 +70,7 @@ class C17(Check):
     required_probes = [
         "crash_points_enumerated", "lost_writes_enumerated", "load_rejected_incomplete", "load_accepted_complete",
         "special_values", "markers_eq_dim", "overwrite", "foreign_file", "param_mismatch_reader", "rod_io", "eulerian_io",
-        "grid_without_fields", "recovery_after_failed_save", "post_hoc_delete", "reader_object_reused", "file_name_without_h5_suffix", "non_c_contiguous_registered_arrays", "cross_class_reader", "rod_io_created_before_finalize", "mixed_precision_in_one_io", "all_zero_field_with_negative_zeros", "file_moved_into_place", "eulerian_arrays_of_other_precision",
+        "grid_without_fields", "recovery_after_failed_save", "post_hoc_delete", "reader_object_reused", "file_name_without_h5_suffix", "non_c_contiguous_registered_arrays", "cross_class_reader", "rod_io_created_before_finalize", "rod_io_with_extra_fields", "mixed_precision_in_one_io", "all_zero_field_with_negative_zeros", "file_moved_into_place", "eulerian_arrays_of_other_precision",
     ]
     tiers = {
         "quick": {"runs": 640, "batch": 8, "timeout": 300},
@@ -93,6 +93,9 @@ class C17(Check):
         rng.shuffle(names)
         if cls == "CosseratRodIO":
             spec["rod"] = {"n_elems": rng.choice([2, 3, 4, 7, 12]), "sub": prng.sub_seed(rng), "finalize_after_io": rng.random() < 0.4}
+            if rng.random() < 0.35:
+                # further element-wise quantities carried on the rod IO's own "rod" grid
+                spec["rod"]["extras"] = [{"name": nm, "kind": kd} for nm, kd in rng.sample([("tension", "scalar"), ("direction", "vector"), ("curvature", "vector")], k=rng.choice([1, 2]))]
             return spec
         if cls == "EulerianFieldIO" or rng.random() < 0.7:
             size = [rng.randint(2, 7) for _ in range(dim)]
@@ -284,6 +287,10 @@ class C17(Check):
             for f in spec["efields"]:
                 shape = size if f["kind"] == "scalar" else (dim, *size)
                 arrs[("e", f["name"])] = cls._empty(shape, e_t, layout, SENTINEL if fill is None else fill)
+        if spec["cls"] == "CosseratRodIO":
+            for fi, f in enumerate(spec["rod"].get("extras", [])):
+                n_el = spec["rod"]["n_elems"]
+                arrs[("rx", fi)] = np.full((n_el,) if f["kind"] == "scalar" else (dim, n_el), SENTINEL, dtype=np.float64)
         lag_t = np.float64 if spec.get("lag_f64") else real_t  # body arrays are float64 whatever the flow precision
         mixed = spec.get("lag_mixed", False)
         for gi, g in enumerate(spec["lgrids"]):
@@ -317,6 +324,11 @@ class C17(Check):
             rod.position_collection[...] += 0.01 * g.standard_normal(rod.position_collection.shape)
             rod.radius[...] *= 1.0 + 0.1 * g.random(rod.radius.shape)
             io = spu.CosseratRodIO(cosserat_rod=rod, dim=dim, real_dtype=real_t)
+            if spec["rod"].get("extras"):
+                io.add_as_lagrangian_fields_for_io(
+                    lagrangian_grid=io.rod_element_position, lagrangian_grid_name="rod", lagrangian_grid_connect=True, scalar_3d=rod.radius,
+                    **{f["name"]: arrs[("rx", fi)] for fi, f in enumerate(spec["rod"]["extras"])},
+                )
             extra["rod"] = rod
             if spec["rod"].get("finalize_after_io") and rod_variant == 0:
                 # as in several examples: the IO object is created first, then the PyElastica simulator is
@@ -368,6 +380,8 @@ class C17(Check):
         if spec["cls"] == "CosseratRodIO":
             items.append((("rodgrid",), "grid", [["Lagrangian/rod/Grid"]]))
             items.append((("rodradius",), "lscalar", [["Lagrangian/rod/Scalar/scalar_3d"], ["Lagrangian/rod/Vector/scalar_3d"]]))
+            for fi, f in enumerate(spec["rod"].get("extras", [])):
+                items.append((("rx", fi), "lscalar" if f["kind"] == "scalar" else "lvector", [[f"Lagrangian/rod/Scalar/{f['name']}"], [f"Lagrangian/rod/Vector/{f['name']}"]]))
             return items
         for f in spec["efields"]:
             if f["kind"] == "scalar":
@@ -438,6 +452,8 @@ class C17(Check):
                 res.probe("rod_io")
                 if specs[i]["rod"].get("finalize_after_io"):
                     res.probe("rod_io_created_before_finalize")
+                if specs[i]["rod"].get("extras"):
+                    res.probe("rod_io_with_extra_fields")
             if specs[i]["cls"] == "EulerianFieldIO":
                 res.probe("eulerian_io")
             if specs[i].get("layout", "C") != "C":
@@ -629,7 +645,10 @@ class C17(Check):
                 if has_e and params_far:
                     res.violation("accepted_mismatching_parameters", sig_base, f"load of {f} returned normally although Eulerian origin/dx/grid_size differ (reader mutation {spec.get('mutation')})")
                 for key, kind in available:
-                    if spec["cls"] == "CosseratRodIO":
+                    if spec["cls"] == "CosseratRodIO" and key[0] == "rx":
+                        want = T["snap"][key]
+                        got = arrs[key]
+                    elif spec["cls"] == "CosseratRodIO":
                         want = T["snap"][key]
                         got = io.rod_element_position if key == ("rodgrid",) else extra["rod"].radius
                         if key == ("rodgrid",):
